@@ -643,6 +643,14 @@ func (tdsChan *Channel) tryParsePackage() bool {
 			if lastPkg, ok := tdsChan.lastPkgRx.(*DonePackage); !ok || lastPkg.Status != TDS_DONE_FINAL {
 				tdsChan.packageCh <- &DonePackage{Status: TDS_DONE_FINAL}
 			}
+
+			// The response is complete - forget its DonePackage, it
+			// must not be mistaken for the final DonePackage of the
+			// next response if that contains no packages that are
+			// passed along.
+			if _, ok := tdsChan.lastPkgRx.(*DonePackage); ok {
+				tdsChan.lastPkgRx = nil
+			}
 		}
 		return false
 	}
